@@ -1790,14 +1790,21 @@ feature! {
         }
 
         fn register_callsite(&self, metadata: &'static Metadata<'static>) -> Interest {
-            // Return highest level of interest.
-            let mut interest = Interest::never();
-            for s in self {
+            // `enabled` requires *all* elements to agree, so the combined
+            // interest may only be `always` (or `never`) if every element
+            // says so; elements that disagree make it `sometimes`, so that
+            // `enabled` is consulted. (An empty `Vec` keeps answering `never`.)
+            let mut elements = self.iter();
+            let mut interest = match elements.next() {
+                Some(s) => s.register_callsite(metadata),
+                None => return Interest::never(),
+            };
+            for s in elements {
                 let new_interest = s.register_callsite(metadata);
-                if (interest.is_sometimes() && new_interest.is_always())
+                if (interest.is_always() && !new_interest.is_always())
                     || (interest.is_never() && !new_interest.is_never())
                 {
-                    interest = new_interest;
+                    interest = Interest::sometimes();
                 }
             }
 
